@@ -1,5 +1,6 @@
 import FFVerif.Props.C15
 import FFVerif.Pins.pinGgmExpand
+import FFVerif.Pins.C15_superop_source_shape
 #print axioms FFVerif.C15.swap_identity
 #print axioms FFVerif.C15.complete_of_swap
 #print axioms FFVerif.C15.liou_real
@@ -20,5 +21,5 @@ import FFVerif.Pins.pinGgmExpand
 #print axioms FFVerif.C15.transpose_not_cp
 #print axioms FFVerif.C15.cp_verdict_of_nonneg
 #print axioms FFVerif.C15.cp_verdict_false_of_neg
-#print axioms FFVerif.C15.superop_source_shape
 #print axioms FFVerif.Pins.pinGgmExpand
+#print axioms FFVerif.C15.superop_source_shape
